@@ -1040,6 +1040,13 @@ def await_shapes():
     A(P("await-two-atomics", SJ(2) + JJ(2), [st("x", 1, "rel"), st("y", 1, "rel")], [await_("x", "acq"), await_("y", "acq"), ld("x")]))
     A(P("await-two-atomics-rlx", SJ(2) + JJ(2), [st("x", 1), st("y", 1)], [await_("y", "rlx"), await_("x", "rlx")]))
     A(P("await-under-lock", SJ(2) + JJ(2), [st("x", 1, "rel")] + CS("m", ld("y")), CS("m", await_("x", "acq"), st("y", 1))))
+    # two concurrent stores (two writers, one store each); the waiter has seen one of them, spins on another flag and re-reads
+    A(P("await-two-writers-reread", [spawn(2), spawn(3), await_("x", "rlx"), await_("d", "acq"), ld("x"), join(2), join(3)],
+        [st("x", 1)], [st("x", 2), st("d", 1, "rel")]))
+    A(P("await-two-writers-reread-yield-first", [spawn(2), spawn(3), I("yield"), await_("x", "rlx"), I("yield"), await_("d", "acq"), ld("x"), join(2), join(3)],
+        [st("x", 1)], [st("x", 2), st("d", 1, "rel")]))
+    A(P("await-two-writers-reread-thread", SJ(3) + JJ(3), [st("x", 1)], [st("x", 2), st("d", 1, "rel")],
+        [await_("x", "rlx"), await_("d", "acq"), ld("x")]))
     # two waiters in a chain, in both spawn orders: the thread that yields may have a higher or a lower index than the one it waits for
     hs1 = [st("x", 1, "rel"), await_("y", "acq"), ld("z")]
     hs2 = [await_("x", "acq"), st("z", 1), st("y", 1, "rel")]
